@@ -102,9 +102,7 @@ func (t *ttlAnalysis) flow(fn *ssa.Function) *Flow {
 							}
 						}
 						for k := range s {
-							for from, to := range sub {
-								k = strings.ReplaceAll(k, from, to)
-							}
+							k = applySubst(k, sub)
 							entry[k] = true
 						}
 					}
